@@ -78,7 +78,8 @@ class RestartRun:
     (the restored process is saved and abandoned again before it makes any progress).
     """
 
-    def __init__(self, program, crashes=None, media=None, loader_mode='default', build=None, max_rounds=200):
+    def __init__(self, program, crashes=None, media=None, loader_mode='default', build=None, max_rounds=200, pauses=None,
+                 crash_paused=None):
         self.plumpy = seams.install()
         self.program = program
         self.crashes = {int(k): v for k, v in (crashes or {}).items()}
@@ -99,6 +100,10 @@ class RestartRun:
         self.crash_states = []
         self.load_error = None
         self.task = None
+        # boundaries at which a pause is requested (from inside the transition), and those at which the PAUSED process is
+        # checkpointed and abandoned instead of being played
+        self.pauses = set(int(b) for b in (pauses or []))
+        self.crash_paused = set(int(b) for b in (crash_paused or []))
 
     def _medium(self):
         medium = self.media[self.restores % len(self.media)]
@@ -114,6 +119,9 @@ class RestartRun:
         if state not in ('running', 'waiting'):
             return
         self.boundary += 1
+        if self.boundary in self.pauses:
+            self.pauses.discard(self.boundary)
+            proc.pause(f'paused at boundary {self.boundary}')
         self._maybe_crash(proc)
 
     def _maybe_crash(self, proc):
@@ -190,6 +198,20 @@ class RestartRun:
                     if self.pending_bundle is not None or proc.has_terminated():
                         break
                     if proc.paused:
+                        if self.boundary in self.crash_paused:
+                            # checkpoint the paused process, abandon it (its stepper stays blocked for ever), continue
+                            # from the bundle: the restored process is paused and has to be played
+                            self.crash_paused.discard(self.boundary)
+                            try:
+                                self.pending_bundle = save(proc, self._medium(), self._loader())
+                                self.crash_states.append('paused:' + proc.state.value)
+                                self.world.rec('crash', self.boundary, 'paused:' + proc.state.value, self._medium())
+                                break
+                            except SimError:
+                                raise
+                            except Exception as exc:  # noqa: BLE001
+                                self.unsavable += 1
+                                self.world.rec('unsavable', self.boundary, type(exc).__name__)
                         proc.play()
                     elif proc.state.value == 'waiting' and not task.done():
                         if not self._wake(proc):
